@@ -8,7 +8,7 @@ def run(ck):
     import contracts_async  # noqa
     ck.assumptions += ['the wall clock is a symbolic non-decreasing millisecond value', 'every await completes',
                        'Arc::get_mut succeeds during single-threaded start-up']
-    ck.out_of_scope += ['tokio timer accuracy; the 1 s ticker inside select! (copy_bidi) is not encoded', 'tproxy/reverse listeners beyond their set_idle_timeout call']
+    ck.out_of_scope += ['tokio timer accuracy; which select! arm fires is a symbolic choice (no scheduling model)', 'tproxy/reverse listeners beyond their set_idle_timeout call']
     timeouts.spec_is_timeout(ck)
     timeouts.spec_incr(ck, 'incr_sent_bytes')
     timeouts.spec_incr(ck, 'incr_sent_frames')
@@ -16,4 +16,5 @@ def run(ck):
     timeouts.spec_set_idle_timeout(ck)
     timeouts.spec_create_context(ck)
     timeouts.spec_main_wiring(ck)
+    timeouts.spec_copy_bidi_tick(ck)
     ck.post_filter = lambda o: o.label.startswith('C13/') or o.status in ('undecided', 'vacuous', 'inconclusive')
